@@ -1256,7 +1256,22 @@ func c10RunBlock(c *vlib.Case, run *vlib.Run, blk, str *vlib.Arena, b *c10Block)
 		c10Count(run, "blocks_larger_than_the_harness_arena_skipped", 1)
 		return
 	}
-	for _, place := range []string{"tail", "head"} {
+	order := []string{"tail", "head"}
+	if c.R.Chance(1, 4) {
+		// a predecessor: another block is decoded first at the very address the head placement uses (the start of
+		// the arena), then b replaces it in place and SetInfoPtr is called again with the same address - a block
+		// rewritten where it lies. Everything reported from then on must be what b encodes.
+		p := c10GenBlock(c.R.Fork(0x9ced))
+		if len(p.encode(0, 0))+4096 <= blk.Size && len(p.strtab)+64 <= str.Size {
+			px := &c10Ctx{c: c, run: run, blk: blk, str: str, b: p, seen: x.seen}
+			px.setPlacement("head")
+			px.checkAll()
+			SetInfoPtr(px.blkAddr)
+			order = []string{"head", "tail"}
+			c10Count(run, "blocks_replacing_another_in_place", 1)
+		}
+	}
+	for _, place := range order {
 		x.setPlacement(place)
 		x.checkAll()
 		c10Count(run, "placements_"+place, 1)
